@@ -462,6 +462,17 @@ func WaitQuiescent() {
 	t.idle = false
 }
 
+// Settle waits for quiescence and lets up to maxTimers pending virtual timers fire (each followed by
+// another wait for quiescence): retry and back-off timers of the code under test get their turn before
+// the harness evaluates its oracle.
+func Settle(maxTimers int) {
+	WaitQuiescent()
+	for i := 0; i < maxTimers && PendingTimers() > 0; i++ {
+		FireTimers(1)
+		WaitQuiescent()
+	}
+}
+
 // Fail records a violation and ends the execution.
 func Fail(sig, detail string) {
 	e := E
